@@ -49,7 +49,7 @@ def cg_skeleton(rng, fragname):
     """small coarse fragment; with probability 1/2 every node carries the fragment's own name"""
     own = rng.random() < 0.5
     nm = (lambda: fragname) if own else (lambda: rng.choice(CG_NAMES))
-    shape = rng.choice(['1', '2', '3', 'b', 'r', 'd', 'bd', 'rd', 'ir', 'il'])
+    shape = rng.choice(['1', '2', '3', 'b', 'r', 'd', 'bd', 'rd', 'ir', 'il', 'fan', '1', '2', '3', 'b', 'r', 'd', 'bd', 'rd', 'ir', 'il'])
     n = lambda: '[#%s]' % nm()
     if shape == '1':
         return n()
@@ -71,6 +71,12 @@ def cg_skeleton(rng, fragname):
     if shape == 'il':   # the same on a ladder, with chain nodes in between
         s = rng.choice(['', '', '='])
         return n() + '1' + n() + n() + '2' + n() + '1' + n() + n() + s + '1' + n() + '2' + n() + n() + '1'
+    if shape == 'fan':  # >= 10 ring bonds open at once, all closed on one hub node: the hub carries '%nn' markers and
+        # one-digit markers in the (recorded) set order, i.e. the '%nn'-then-digit pattern the writer must pad ('%0n')
+        m = rng.randint(10, 13)
+        mk = lambda i: str(i) if i < 10 else '%%%d' % i
+        return ''.join(n() + mk(i + 1) for i in range(m)) + ''.join(n() for _ in range(rng.randint(1, 3))) + \
+            n() + ''.join(mk(i + 1) for i in range(m)) + ''.join(n() for _ in range(rng.randint(0, 1)))
     return n() + '=1' + n() + n() + '1'
 
 
@@ -229,6 +235,10 @@ class C08(common.Prop):
             {'kind': 'frag', 's': '{#ST=C1CCC2C1(CCC3C2CC=C4C3(CCC(C4)O[>])C)C,#T=[<]C1CC2CC1C1CC2C1[!]}', 'aa': True},
             {'kind': 'frag', 's': '{#X=[#A]1[#B]=2[#C]1[#D]3[#E]2[#F]3[$]}', 'aa': False},
             {'kind': 'frag', 's': '{#X=[#X]1[#X][#X]2[#X]1[#X][$][#X]1[#X]2[#X][#X]1}', 'aa': False},
+            # >= 10 open ring bonds closed on one node ('%nn' markers followed by one-digit markers, fix b681517)
+            {'kind': 'frag', 's': '{#X=[#A]1[#B]2[#A]3[#B]4[#A]5[#B]6[#A]7[#B]8[#A]9[#B]%10[#C][#A]123456789%10[$]}', 'aa': False},
+            {'kind': 'frag', 's': '{#X=[#A]1[#B]2[#A]3[#B]4[#A]5[#B]6[#A]7[#B]8[#A]9[#B]%10[#A]%11[#B]%12[#C][#C][#C][#A]123456789%10%11%12[#B][$]}',
+             'aa': False},
             {'kind': 'whole', 's': '{[#CHOL][#SUC]}.{#CHOL=C1CCC2C1(CCC3C2CC=C4C3(CCC(C4)O[>])C)C,#SUC=[<]C(=O)CCC(=O)O}',
              'aa': True},
             {'kind': 'whole', 's': '{[#A][#B][#A]}.{#A=[$]C1CC2C1CC1CC2CC1,#B=[$]C12C3C4C1C5C2C3C45[$]}', 'aa': True},
